@@ -3,7 +3,7 @@ from pyvc import verify
 from bounded import corrupt, roundtrip
 from contracts import validators
 from spec import fields as F
-from .common import ctx, std
+from .common import ctx, std, contract_samples
 
 KINDS = ["composeinfo", "images", "rpms", "modules", "extra_files", "treeinfo", "discinfo"]
 
@@ -27,6 +27,11 @@ def check(run):
     for k in sorted(c.contracts):
         if k.startswith("valid:") and k.count(":") == 2 or k in ("valid:treeinfo.Images", "valid:treeinfo.Checksums"):
             verify.verify(run, c.E, c.contracts[k])
+    # the scanning validators on tables of ARBITRARY size (witness rule, pyvc/anycoll.py): every entry, not the first two
+    for k in sorted(c.contracts):
+        if k.startswith("scan:"):
+            verify.verify(run, c.E, c.contracts[k], crosscheck=False)
+    contract_samples(run, c, [k for k in sorted(c.contracts) if k.startswith("scan:")])
     # enum.covers : every documented enumeration value is accepted (tables as imported are lower-bounded)
     with run.obligation("enum.documented_values_present", "conc", ["productmd.*.{COMPOSE_TYPES,RELEASE_TYPES,LABEL_NAMES,VARIANT_TYPES,...}"]) as ob:
         missing = []
